@@ -12,6 +12,17 @@ import (
 
 // calleeKey computes the contract key for a call.
 func (x *Exec) calleeKey(c *ssa.CallCommon) string {
+	key := x.calleeKey0(c)
+	// a contract for a func-typed local/parameter may be scoped to the calling function: `extern local:fn@pkg.(*T).M(...)`
+	if strings.HasPrefix(key, "local:") || strings.HasPrefix(key, "param:") {
+		if _, ok := x.C.Funcs[key+"@"+x.key]; ok {
+			return key + "@" + x.key
+		}
+	}
+	return key
+}
+
+func (x *Exec) calleeKey0(c *ssa.CallCommon) string {
 	if c.IsInvoke() {
 		return ifaceMethodKey(c.Value.Type(), c.Method)
 	}
@@ -77,6 +88,17 @@ func (x *Exec) calleeContract(c *ssa.CallCommon) (string, *FuncContract) {
 var purePkgPrefixes = []string{"strings.", "strconv.", "fmt.", "errors.", "time.", "math.", "math/rand.", "math/rand/v2.", "bytes.", "unicode.", "unicode/utf8.",
 	"path.", "path/filepath.", "net/url.", "net/netip.", "net.", "encoding/", "crypto/", "hash.", "context.", "log/slog.", "log.", "regexp.", "os.", "io.", "sync.", "sync/atomic.",
 	"net/http.", "net/textproto.", "mime.", "slices.", "maps.", "cmp.", "runtime.", "reflect.", "go.opentelemetry.io/", "google.golang.org/", "sort.Strings", "sort.SearchStrings", "sort.Ints", "bufio.", "io/fs.", "syscall.", "os/signal.", "os/exec.", "container/", "database/sql."}
+
+// valuePureKey: standard-library callees that keep no pointer handed to an earlier call (they cannot write a local
+// whose address escaped into an interface value).
+func valuePureKey(key string) bool {
+	for _, p := range []string{"time.", "strings.", "strconv.", "errors.", "math.", "bytes.", "unicode.", "unicode/utf8.", "context.", "path.", "net/url.", "net/netip.", "model:"} {
+		if strings.HasPrefix(key, p) {
+			return true
+		}
+	}
+	return false
+}
 
 // isPureExtern: callee outside the repository whose effects do not touch modelled heap state
 // (results are havoced; pointer-to-local arguments are havoced).
@@ -144,16 +166,37 @@ func (x *Exec) execCallInner(st *State, c *ssa.CallCommon, args []*Val, fnVal *V
 	if b, ok := c.Value.(*ssa.Builtin); ok && !c.IsInvoke() {
 		return x.execBuiltin(st, b.Name(), c, args, pos)
 	}
-	// locals whose address was boxed into an interface may be written by any callee
-	for al := range x.escaped {
-		if cur, ok := st.cells[al]; ok && isSMTVal(cur) {
-			et := al.Type().(*types.Pointer).Elem()
-			nv := x.havocVal(et, "esc."+al.Comment)
-			x.assume(st, x.typeFacts(nv, et))
-			st.cells[al] = nv
+	key := x.calleeKey(c)
+	// locals whose address was boxed into an interface may be written by any callee that could have kept the
+	// pointer; value-only standard-library packages keep none. The havoc happens after the call-site clauses were
+	// evaluated (they describe the state in which the call is made).
+	escHavoc := func() {
+		if valuePureKey(key) {
+			return
+		}
+		for al := range x.escaped {
+			if cur, ok := st.cells[al]; ok && isSMTVal(cur) {
+				et := al.Type().(*types.Pointer).Elem()
+				nv := x.havocVal(et, "esc."+al.Comment)
+				x.assume(st, x.typeFacts(nv, et))
+				st.cells[al] = nv
+			}
+		}
+		// heap-allocated struct locals: only callees outside the repository are suspected of writing through a pointer
+		// they were handed in an interface earlier (row.Scan(&v)); in-repository callees are governed by their contracts
+		inRepo := strings.HasPrefix(key, "local:") || strings.HasPrefix(key, "param:") || x.P.isRepoKey(key)
+		for _, al := range x.escapedObjs {
+			if inRepo {
+				break
+			}
+			if rv, ok := x.regs[al]; ok && rv.K == VScalar {
+				et := al.Type().(*types.Pointer).Elem()
+				nv := x.havocVal(et, "escobj."+al.Comment)
+				x.assume(st, x.typeFacts(nv, et))
+				x.storeObj(st, rv.T, et, "", et, nv)
+			}
 		}
 	}
-	key := x.calleeKey(c)
 	// a closure value whose function is statically known
 	if fnVal != nil && fnVal.K == VClosure && fnVal.Clo.Fn != nil && !c.IsInvoke() {
 		key = x.P.funcKey(fnVal.Clo.Fn)
@@ -169,6 +212,7 @@ func (x *Exec) execCallInner(st *State, c *ssa.CallCommon, args []*Val, fnVal *V
 	if err := x.checkCallsClauses(st, key, fc, c, allArgs, pos); err != nil {
 		return nil, err
 	}
+	escHavoc()
 	if fc == nil {
 		if v, handled, err := x.builtinExtern(st, key, c, allArgs, pos); handled {
 			return v, err
